@@ -160,6 +160,12 @@ void EPLS(matrix *mx, matrix *my, size_t nlv, size_t xautoscaling, size_t yautos
        initMatrix(&x_subspace);
     }
 
+     /* The subspaces are drawn from a stream seeded here: otherwise the result
+      * depends on whatever the calling thread drew before - and in a worker thread
+      * of the validation routines, whose generator nobody seeded, on the clock.
+      */
+     srand_(srand_init);
+
      /* Create a random id vector */
      for(it = 0; it < eparm.n_models; it++){
        /* Sattolo's algorithm to shuffle the featureids*/
